@@ -11,6 +11,7 @@ from dimarray.compat.pycompat import dictkeys, dictvalues
 from .core import DimArray, array, Axis, Axes
 from .core import align as align_axes, stack, concatenate
 from .core.align import _check_stack_args, _get_axes, stack, concatenate, _check_stack_axis, get_dims as _get_dims, reindex_like
+from .core.indexing import locate_many
 from .core.transform import interp_like, _interp_internal_from_weight, _interp_internal_get_weights, _interp_internal_maybe_sort
 from .core import pandas_obj
 from .core.bases import AbstractDataset, GetSetDelAttrMixin, OpMixin
@@ -685,8 +686,12 @@ class Dataset(AbstractDataset, dict, OpMixin, GetSetDelAttrMixin):
             values = np.asarray(values)
 
         # take axis, do not raise error
-        dataset = self.take_axis(values, axis=axis, indexing='label', 
-                                 mode='raise' if raise_error else 'clip')
+        if method is None:
+            dataset = self.take_axis(values, axis=axis, indexing='label', 
+                                     mode='raise' if raise_error else 'clip')
+        else:
+            indices = locate_many(self.axes[axis].values, values, side=method)
+            dataset = self.take_axis(indices, axis=axis, indexing='position')
 
         # Replace mismatch with missing values?
         newax = dataset.axes[axis]
